@@ -11,6 +11,7 @@ import (
 
 var Harnesses = map[string]func(){
 	"H_Concurrent": H_Concurrent,
+	"H_Committers": H_Committers,
 }
 
 type MV struct{ X uint64 }
@@ -147,4 +148,81 @@ func H_Concurrent() {
 		}
 	}
 	vp.Cover("C08.done")
+}
+
+// H_Committers: two blocks are committed concurrently by two goroutines (B1 on A; B2 either on
+// B1 or a sibling on A), each writing k — a key that is new to the shared cache, or one A had
+// already written — and, optionally, a reader looks k up meanwhile.  Commits are serialised by
+// the state-cache lock; every schedule the lock admits is explored at hook granularity.  Once
+// both commits have returned, each block's own write must be found at that block.
+func H_Committers() {
+	vp.ExploreSchedules(vp.Param("preempt", -1))
+	vp.YieldAtLocks(false)
+	vp.RaceDetect(true)
+
+	sc := statecache.NewStateCache()
+	aWrites := vp.Choose("aWrites", 2) == 1
+	vA := vp.Uint64("vA")
+	a := statecache.NewBlockCache(sc, statecache.Block{Round: 1, Hash: "A", PrevHash: "genesis"})
+	a.Set("other", &MV{7})
+	if aWrites {
+		a.Set(key, &MV{vA})
+	}
+	a.Commit()
+	chain := vp.Choose("chain", 2) == 1 // B2 on B1, or B2 a sibling of B1
+	v1, v2 := vp.Uint64("v1"), vp.Uint64("v2")
+	b1 := statecache.NewBlockCache(sc, statecache.Block{Round: 2, Hash: "B1", PrevHash: "A"})
+	b1.Set(key, &MV{v1})
+	prev2 := "A"
+	if chain {
+		prev2 = "B1"
+	}
+	b2 := statecache.NewBlockCache(sc, statecache.Block{Round: 3, Hash: "B2", PrevHash: prev2})
+	b2.Set(key, &MV{v2})
+
+	want := map[string]uint64{"B1": v1, "B2": v2}
+	type result struct {
+		at  string
+		hit bool
+		x   uint64
+	}
+	var results []result
+	var hmu sync.Mutex
+	vp.Go(func() { b1.Commit() })
+	vp.Go(func() { b2.Commit() })
+	if vp.Param("reader", 0) == 1 {
+		vp.Go(func() {
+			at := []string{"B1", "B2"}[vp.Choose("at", 2)]
+			v, hit := statecache.NewQueryBlockCache(sc, at).Get(key)
+			res := result{at: at, hit: hit}
+			if hit {
+				if mv, ok := v.(*MV); ok && mv != nil {
+					res.x = mv.X
+				}
+			}
+			hmu.Lock()
+			results = append(results, res)
+			hmu.Unlock()
+		})
+	}
+	vp.Wait()
+	for _, r := range results {
+		if r.hit {
+			// B2 on a not yet published B1 may only miss, never answer with another block's value
+			vp.Assert("C08.committers.hit-equals-tree-determined-value", r.x == want[r.at])
+			vp.Cover("C08.committers.reader-hit")
+		}
+	}
+	for _, at := range []string{"B1", "B2"} {
+		v, hit := statecache.NewQueryBlockCache(sc, at).Get(key)
+		vp.Assert("C08.committers.committed-write-found", hit)
+		if hit {
+			mv, ok := v.(*MV)
+			vp.Assert("C08.committers.value-type", ok && mv != nil)
+			if ok && mv != nil {
+				vp.Assert("C08.committers.hit-equals-tree-determined-value", mv.X == want[at])
+			}
+		}
+	}
+	vp.Cover("C08.committers.done")
 }
